@@ -12,7 +12,7 @@ import (
 
 func init() {
 	register(&propDef{
-		ID: "C04", Level: "other", Run: withShared(runC04, share{"C05", runC05, ruleIs("no-bet-when-one-movable")}, share{"C07", runC07, ruleIs("load-is-identity")}),
+		ID: "C04", Level: "other", Run: withShared(runC04, share{"C05", runC05, ruleIs("no-bet-when-one-movable")}, share{"C07", runC07, ruleIs("load-is-identity")}, share{"C06", runC06, ruleIs("tail-emit")}),
 		Explanation: "Decides the refusal-without-effect half of the property for every path of every action and table operation (E3: all state effects come after the passed CheckAction / current-event guard, every refusing path returns a definitely non-nil sentinel error, every sentinel return is effect-free), that offered action names agree with the guards across packages (E2), that offers are attached to the current seat only and cleared from the previous one (E6/E8), that the game-level action wrappers dispatch to the current player, and that NextPlayer is the clockwise successor function. Where a round opens is decided in shape: later streets park the current seat on the dealer, before the flop the current seat walks the seat successor from the dealer to the big blind, and the first offer goes to the successor of the parked seat. Along every event chain that rests outside the action wait all offers were cleared after the last grant. Does NOT decide which seat the walk starts from before the flop or that the walk visits seats in order for every history.",
 		Trusted:     commonTrusted,
 		Assumptions: []string{"single game per process: every *GameState reached from a game/player is the same object", "player.state aliases GameState.Players[idx] (established by addPlayer)", "interfaces Game/Player have one implementation each (asserted)"},
